@@ -144,6 +144,8 @@ UNITS = {"grammar": unit_grammar, "random": unit_random, "sources": unit_sources
 
 
 def _run_unit(u):
+    import logging
+    logging.disable(logging.CRITICAL)    # func_adl's warnings about unknown names are not part of any verdict
     t0 = time.time()
     try:
         r = UNITS[u["kind"]](u)
@@ -210,3 +212,90 @@ def replay_payload(payload):
     status = decide(payload["program"], payload["transformer"], payload.get("N", 2), res, "replay")
     print(status, res.violations[:1] or res.harness[:1] or res.inconclusive[:1])
     return 1 if res.violations else (3 if res.harness else 0)
+
+
+# ------------------------------------------------------------------ pipeline units: generated source modules through the real fluent API
+MODULE_HEAD = '''from func_adl import EventDataset
+
+
+class DS(EventDataset):
+    async def execute_result_async(self, a, title=None):
+        return a
+
+
+'''
+
+
+def helper_funs(module_ast, names):
+    """enc.Fun closures for the single-return helpers of a generated module, read from CPython's parse of the generated text"""
+    from vlib.qsem import enc
+    henv = {}
+    for node in module_ast.body:
+        if isinstance(node, ast.FunctionDef) and node.name in names:
+            rets = [b for b in node.body if isinstance(b, ast.Return)]
+            if len(node.body) == 1 and rets:
+                henv[node.name] = enc.Fun([a.arg for a in node.args.args], rets[0].value, henv)
+        if isinstance(node, ast.Assign) and isinstance(node.value, ast.Lambda) and isinstance(node.targets[0], ast.Name) and node.targets[0].id in names:
+            henv[node.targets[0].id] = enc.Fun([a.arg for a in node.value.args.args], node.value.body, henv)
+    return henv
+
+
+def decide_pair(P, P2, N, res, label, env_builder=None, extra_env=None, rtypes=None, sigs=None, payload_extra=None):
+    rt = dict(gen.RTYPES)
+    rt.update(rtypes or {})
+    status, d = tv.tv_pair(P, P2, N=N, rtypes=rt, sigs=sigs, stats=res.stats, env_builder=env_builder, extra_env=extra_env)
+    src = ast.unparse(P)
+    if len(res.stats.samples) < 6 and status == tv.OK:
+        res.stats.samples.append({"truth": src[:300], "emitted": ast.unparse(P2)[:300], "label": label})
+    if status == tv.VIOLATION:
+        p = dict(engine="T", program=src, N=N, label=label, output=ast.unparse(P2)[:800])
+        p.update({k: str(v)[:800] for k, v in d.items()})
+        p.update(payload_extra or {})
+        res.violations.append(p)
+    elif status == tv.INCONCLUSIVE:
+        res.inconclusive.append({"program": src[:300], "why": d.get("why"), "label": label})
+    elif status == tv.HARNESS:
+        res.harness.append("%s: %s | %s" % (label, d.get("why"), src[:300]) + " " + str({k: v for k, v in d.items() if k != "why"})[:600])
+    return status
+
+
+def unit_helpers(u):
+    """C05: cases = list of dict(helpers=source text of helper definitions, lam=source of the lambda, names=[helper names], opaque={name: rtype})"""
+    from vlib import srcgen
+    res = UnitResult()
+    cases = u["cases"]
+    text = MODULE_HEAD
+    for i, c in enumerate(cases):
+        text += c["helpers"].rstrip() + "\n\n\n"
+        text += "def build_%d(ds):\n    return ds.Select(\n        %s\n    )\n\n\n" % (i, c["lam"])
+    with srcgen.Scratch() as sc:
+        try:
+            mod = sc.load(text, "c05")
+        except Exception as e:  # noqa
+            res.harness.append("generated module does not import: %r" % (e,))
+            return res
+        mast = ast.parse(text)
+        for i, c in enumerate(cases):
+            ds = mod.DS()
+            truth_lam = ast.parse(c["lam"], mode="eval").body
+            P = ast.Call(ast.Name("Select", ast.Load()), [ast.Name("ds", ast.Load()), truth_lam], [])
+            try:
+                st = getattr(mod, "build_%d" % i)(ds)
+            except Exception as e:  # noqa
+                res.violations.append(dict(engine="T", kind="Select raised %s: %s" % (type(e).__name__, e), program=c["lam"], helpers=c["helpers"], label=u.get("label", "helpers"), N=u["N"]))
+                continue
+            emitted = st.query_ast.args[1]
+            P2 = ast.Call(ast.Name("Select", ast.Load()), [ast.Name("ds", ast.Load()), emitted], [])
+            names = set(c["names"])
+
+            def env_builder(cx, names=names):
+                return helper_funs(mast, names)
+
+            def extra_env(w, names=names):
+                return {n: getattr(mod, n) for n in names if hasattr(mod, n) and n not in c.get("opaque", {})}
+            decide_pair(P, P2, u["N"], res, u.get("label", "helpers"), env_builder=env_builder, extra_env=extra_env, rtypes=c.get("opaque"),
+                        payload_extra={"helpers": c["helpers"], "lam": c["lam"], "unit": "helpers"})
+    return res
+
+
+UNITS["helpers"] = unit_helpers
